@@ -74,10 +74,12 @@ type Tunnel struct {
 	connMu  sync.RWMutex
 	channel uint8
 	control knxnet.HostInfo
+	epoch   uint64 // counts the connections established; guarded by connMu as well
 
-	// For outgoing requests
+	// For outgoing requests; seqEpoch is the connection that seqNumber counts for
 	seqMu     sync.Mutex
 	seqNumber uint8
+	seqEpoch  uint64
 	ack       chan *knxnet.TunnelRes
 
 	// Incoming requests
@@ -175,13 +177,14 @@ func (conn *Tunnel) requestConn() (err error) {
 				switch res.Status {
 				// Conection has been established.
 				case knxnet.NoError:
+					// The new connection has its own numbering. The sender restarts at 0 when it sees
+					// the new epoch; resetting the counter here would have to wait for a pending
+					// request, and requests queued behind that one would use the new channel with
+					// the old number meanwhile.
 					conn.connMu.Lock()
 					conn.channel = res.Channel
+					conn.epoch++
 					conn.connMu.Unlock()
-
-					conn.seqMu.Lock()
-					conn.seqNumber = 0
-					conn.seqMu.Unlock()
 
 					return nil
 
@@ -260,6 +263,16 @@ func (conn *Tunnel) requestTunnel(data cemi.Message) error {
 	conn.seqMu.Lock()
 	defer conn.seqMu.Unlock()
 
+	// Channel and numbering belong together: a request on a new connection starts at 0.
+	conn.connMu.RLock()
+	channel, epoch := conn.channel, conn.epoch
+	conn.connMu.RUnlock()
+
+	if epoch != conn.seqEpoch {
+		conn.seqEpoch = epoch
+		conn.seqNumber = 0
+	}
+
 	var seqNumber uint8
 
 	if !conn.config.UseTCP {
@@ -277,8 +290,6 @@ func (conn *Tunnel) requestTunnel(data cemi.Message) error {
 		default:
 		}
 	}
-
-	channel, _ := conn.connInfo()
 
 	req := &knxnet.TunnelReq{
 		Channel:   channel,
